@@ -109,11 +109,14 @@ class UnivFact:
     ``sources``: Arr objects whose logged read indices give the instances;
     ``extra``: further index tuples."""
 
-    def __init__(self, arity, body, sources=(), extra=()):
+    def __init__(self, arity, body, sources=(), extra=(), decls=(), generic=None):
         self.arity = arity
         self.body = body
         self.sources = list(sources)
         self.extra = list(extra)
+        self.decls = list(decls)  # instantiate at the argument tuples of applications of these functions
+        # generic: use every Int index term of the query as a candidate (arity 1); default when no decls
+        self.generic = generic if generic is not None else (not self.decls)
 
     def instances(self, more=()):
         seen = set()
@@ -134,6 +137,36 @@ class UnivFact:
 
 
 # ------------------------------------------------------------------ context
+
+
+def trigger_decls(body):
+    """Unary uninterpreted functions applied directly to the bound variable: the instantiation triggers."""
+    probe = z3.Int("probe!trigger")
+    try:
+        t = body(probe)
+    except Exception:  # noqa: BLE001
+        return []
+    out = {}
+    stack = [t]
+    seen = set()
+    while stack:
+        x = stack.pop()
+        if x.get_id() in seen or not z3.is_app(x):
+            continue
+        seen.add(x.get_id())
+        if x.num_args() == 1 and x.decl().kind() == z3.Z3_OP_UNINTERPRETED and x.arg(0).eq(probe):
+            out[x.decl().name()] = x.decl()
+        stack.extend(x.children())
+    return list(out.values())
+
+
+class ForallP:
+    """forall p in [0, n): body(p) -- a quantified contract clause."""
+
+    def __init__(self, n, body, lo=0):
+        self.n = n
+        self.body = body
+        self.lo = lo
 
 
 class Ctx:
@@ -180,6 +213,26 @@ class Ctx:
             goal = z3.BoolVal(False)
         self.obls.append(Obligation(label, goal, tuple(self.pc), loc or self.loc, kind, tuple(self.univ), meta or {}))
 
+    def assume_item(self, item):
+        if isinstance(item, ForallP):
+            n, body, lo = V.to_z3(item.n), item.body, V.to_z3(item.lo)
+            full = lambda p: z3.Implies(z3.And(p >= lo, p < n), V.to_z3(V.sbool(body(p))))  # noqa: E731
+            self.univ.append(UnivFact(1, full, decls=trigger_decls(full)))
+        else:
+            self.assume(item if isinstance(item, bool) else V.to_z3(V.sbool(item)))
+
+    def oblige_item(self, label, item, kind="pre"):
+        if isinstance(item, ForallP):
+            p = self.fresh("p")
+            n0 = len(self.pc)
+            self.pc.append(z3.And(p >= V.to_z3(item.lo), p < V.to_z3(item.n)))
+            try:
+                self.oblige(label, V.sbool(item.body(p)), kind=kind)
+            finally:
+                del self.pc[n0:]
+        else:
+            self.oblige(label, V.sbool(item) if not isinstance(item, bool) else item, kind=kind)
+
     def feasible(self) -> bool:
         if not self.check_paths:
             return True
@@ -188,6 +241,25 @@ class Ctx:
         s.add(*self.pc)
         s.add(*V.AXIOMS)
         return s.check() != z3.unsat
+
+    def decide(self, cond) -> bool:
+        """Truth of ``cond`` on this path if the path condition settles it (used by specifications,
+        which must follow the branch the real code took); forks otherwise."""
+        cond = V.sbool(cond)
+        if isinstance(cond, bool):
+            return cond
+        s = z3.Solver()
+        s.set("timeout", 3000)
+        s.add(*self.pc)
+        s.push()
+        s.add(z3.Not(cond))
+        if s.check() == z3.unsat:
+            return True
+        s.pop()
+        s.add(cond)
+        if s.check() == z3.unsat:
+            return False
+        return self.fork(cond)
 
     def fork(self, cond) -> bool:
         cond = V.sbool(cond)
